@@ -97,13 +97,16 @@ func (r *Request) ConnectionID() int {
 // Supported options: WithResponseCode, WithDiagnosticMessage, WithMatchedDN
 func (r *Request) NewModifyResponse(opt ...Option) *ModifyResponse {
 	opts := getResponseOpts(opt...)
+	respOpts := []Option{
+		WithApplicationCode(ApplicationModifyResponse),
+		WithDiagnosticMessage(opts.withDiagnosticMessage),
+		WithMatchedDN(opts.withMatchedDN),
+	}
+	if opts.withResponseCode != nil {
+		respOpts = append(respOpts, WithResponseCode(*opts.withResponseCode))
+	}
 	return &ModifyResponse{
-		GeneralResponse: r.NewResponse(
-			WithApplicationCode(ApplicationModifyResponse),
-			WithResponseCode(*opts.withResponseCode),
-			WithDiagnosticMessage(opts.withDiagnosticMessage),
-			WithMatchedDN(opts.withMatchedDN),
-		),
+		GeneralResponse: r.NewResponse(respOpts...),
 	}
 }
 
